@@ -286,7 +286,8 @@ func GenHist(id int, rng *rand.Rand) HistScenario {
 				}
 				sc.Ops = append(sc.Ops, HistOp{Op: "SetAge", R: best, Age: 30})
 			case 1:
-				sc.Ops = append(sc.Ops, HistOp{Op: "RemoveOld", D: d, Days: 7})
+				// retention periods around the age the driver gives to old runs (30 days) and very long ones ("keep for ever")
+				sc.Ops = append(sc.Ops, HistOp{Op: "RemoveOld", D: d, Days: []int{7, 7, 29, 31, 365, 36500, 106751, 106752, 150000, 999999}[rng.Intn(10)]})
 				for r, ru := range runs {
 					_ = r
 					_ = ru
